@@ -1,1 +1,748 @@
-import GeoModel
+/-
+  Property C07 — Parse decodes exactly what the document says, or rejects it (on the AST
+  model GeoModel.Json).
+
+  * `Defect` / `defect_rejected`: every listed structural defect is rejected, for all options.
+  * `WellFormed` / `wf_accepted_partial`: every well-formed document that respects the
+    dimension rule (`DimsNotIncreasing`) is accepted; `wf_accepted_counterexample` is the
+    known finding D11 (a well-formed document with positions of 2 and then 3 numbers is
+    rejected), so the unrestricted statement is false for the code as it is.
+  * `wf_decoded`: an accepted well-formed document decodes to the reference reading.
+-/
+import GeoProofs.ParseLemmas
+namespace Geo
+
+/-! ## structural defects are rejected -/
+
+/-- the six types whose required member is "coordinates" -/
+def coordTypes : List String :=
+  ["Point", "LineString", "Polygon", "MultiPoint", "MultiLineString", "MultiPolygon"]
+
+/-- the listed structural defects. Reserved members are read as Parse reads them: the LAST
+    member of each reserved name (`scanKeys`). Positions, lines, rings and polygons are looked
+    at through `JVal.elems` (for arrays: their elements), see `badPos`, `badLine`, `badRing`,
+    `badPoly` in GeoProofs.ParseLemmas. -/
+inductive Defect : JVal → Prop
+  /-- not an object -/
+  | notObject (v : JVal) (h : ∀ ms, v ≠ .obj ms) : Defect v
+  /-- missing type -/
+  | typeMissing (ms) (h : (scanKeys ms).type = none) : Defect (.obj ms)
+  /-- non-string type -/
+  | typeNotString (ms) (t : JVal) (h : (scanKeys ms).type = some t) (hs : ∀ r s, t ≠ .str r s) :
+      Defect (.obj ms)
+  /-- unknown type -/
+  | typeUnknown (ms) (r ty : String) (h : (scanKeys ms).type = some (.str r ty)) (hu : ty ∉ nineTypes) :
+      Defect (.obj ms)
+  /-- missing required member -/
+  | coordinatesMissing (ms) (r ty : String) (h : (scanKeys ms).type = some (.str r ty))
+      (ht : ty ∈ coordTypes) (hc : (scanKeys ms).coordinates = none) : Defect (.obj ms)
+  | geometriesMissing (ms) (r : String) (h : (scanKeys ms).type = some (.str r "GeometryCollection"))
+      (hc : (scanKeys ms).geometries = none) : Defect (.obj ms)
+  | featuresMissing (ms) (r : String) (h : (scanKeys ms).type = some (.str r "FeatureCollection"))
+      (hc : (scanKeys ms).features = none) : Defect (.obj ms)
+  | geometryMissing (ms) (r : String) (h : (scanKeys ms).type = some (.str r "Feature"))
+      (hc : (scanKeys ms).geometry = none) : Defect (.obj ms)
+  /-- required member that is not an array -/
+  | coordinatesNotArray (ms) (r ty : String) (c : JVal) (h : (scanKeys ms).type = some (.str r ty))
+      (ht : ty ∈ coordTypes) (hc : (scanKeys ms).coordinates = some c) (ha : c.isArray = false) :
+      Defect (.obj ms)
+  | geometriesNotArray (ms) (r : String) (c : JVal)
+      (h : (scanKeys ms).type = some (.str r "GeometryCollection"))
+      (hc : (scanKeys ms).geometries = some c) (ha : c.isArray = false) : Defect (.obj ms)
+  | featuresNotArray (ms) (r : String) (c : JVal)
+      (h : (scanKeys ms).type = some (.str r "FeatureCollection"))
+      (hc : (scanKeys ms).features = some c) (ha : c.isArray = false) : Defect (.obj ms)
+  /-- a position with fewer than two ordinates or a non-numeric value among its first four
+      (`null` is allowed in Point and MultiPoint positions only) -/
+  | pointPosition (ms) (r : String) (c : JVal) (h : (scanKeys ms).type = some (.str r "Point"))
+      (hc : (scanKeys ms).coordinates = some c) (hb : badPos true c = true) : Defect (.obj ms)
+  | multiPointPosition (ms) (r : String) (c p : JVal) (h : (scanKeys ms).type = some (.str r "MultiPoint"))
+      (hc : (scanKeys ms).coordinates = some c) (hp : p ∈ c.elems) (hb : badPos true p = true) :
+      Defect (.obj ms)
+  /-- a line with fewer than two positions (or with a bad position) -/
+  | lineString (ms) (r : String) (c : JVal) (h : (scanKeys ms).type = some (.str r "LineString"))
+      (hc : (scanKeys ms).coordinates = some c) (hb : badLine c = true) : Defect (.obj ms)
+  | multiLineString (ms) (r : String) (c l : JVal)
+      (h : (scanKeys ms).type = some (.str r "MultiLineString"))
+      (hc : (scanKeys ms).coordinates = some c) (hl : l ∈ c.elems) (hb : badLine l = true) :
+      Defect (.obj ms)
+  /-- a polygon with no ring, a ring with fewer than four positions or not closed (or with a
+      bad position) -/
+  | polygon (ms) (r : String) (c : JVal) (h : (scanKeys ms).type = some (.str r "Polygon"))
+      (hc : (scanKeys ms).coordinates = some c) (hb : badPoly c = true) : Defect (.obj ms)
+  | multiPolygon (ms) (r : String) (c pg : JVal)
+      (h : (scanKeys ms).type = some (.str r "MultiPolygon"))
+      (hc : (scanKeys ms).coordinates = some c) (hl : pg ∈ c.elems) (hb : badPoly pg = true) :
+      Defect (.obj ms)
+  /-- any such defect in a nested object -/
+  | nestedGeometry (ms) (r : String) (g : JVal) (h : (scanKeys ms).type = some (.str r "Feature"))
+      (hc : (scanKeys ms).geometry = some g) (hd : Defect g) : Defect (.obj ms)
+  | nestedGeometries (ms) (r : String) (items : List JVal) (x : JVal)
+      (h : (scanKeys ms).type = some (.str r "GeometryCollection"))
+      (hc : (scanKeys ms).geometries = some (.arr items)) (hx : x ∈ items) (hd : Defect x) :
+      Defect (.obj ms)
+  | nestedFeatures (ms) (r : String) (items : List JVal) (x : JVal)
+      (h : (scanKeys ms).type = some (.str r "FeatureCollection"))
+      (hc : (scanKeys ms).features = some (.arr items)) (hx : x ∈ items) (hd : Defect x) :
+      Defect (.obj ms)
+
+/-- what an accepted object of type `ty` looks like, one level deep: no defect of its own,
+    and the nested objects are accepted too -/
+def OkInv (o : POpts) (n : Nat) (k : Keys) (ty : String) : Prop :=
+  ty ∈ nineTypes ∧
+  (ty ∈ coordTypes → ∃ c, k.coordinates = some c ∧ c.isArray = true ∧
+    (ty = "Point" → badPos true c = false) ∧
+    (ty = "MultiPoint" → ∀ p ∈ c.elems, badPos true p = false) ∧
+    (ty = "LineString" → badLine c = false) ∧
+    (ty = "MultiLineString" → ∀ l ∈ c.elems, badLine l = false) ∧
+    (ty = "Polygon" → badPoly c = false) ∧
+    (ty = "MultiPolygon" → ∀ pg ∈ c.elems, badPoly pg = false)) ∧
+  (ty = "GeometryCollection" → ∃ items, k.geometries = some (.arr items) ∧
+    ∀ y ∈ items, ∃ c, parse o n y = .ok c) ∧
+  (ty = "FeatureCollection" → ∃ items, k.features = some (.arr items) ∧
+    ∀ y ∈ items, ∃ c, parse o n y = .ok c) ∧
+  (ty = "Feature" → ∃ g b, k.geometry = some g ∧ parse o n g = .ok b)
+
+local macro "nope" : tactic => `(tactic| (intro hne; exact absurd hne (by decide)))
+
+theorem parse_ok_inv (o : POpts) (n : Nat) (ms : List (String × String × JVal)) (x : Obj)
+    (h : parse o (n+1) (.obj ms) = .ok x) :
+    ∃ r ty, (scanKeys ms).type = some (.str r ty) ∧ OkInv o n (scanKeys ms) ty := by
+  rw [parse_succ_obj] at h
+  split at h
+  · cases h
+  · rename_i r ty hty
+    refine ⟨r, ty, hty, ?_⟩
+    revert h
+    refine parseTyped_elim (motive := fun ty res => res = .ok x → OkInv o n (scanKeys ms) ty)
+      o (scanKeys ms) (parse o n) (parseList o n) ty ?_ ?_ ?_ ?_ ?_ ?_ ?_ ?_ ?_ ?_
+    · intro h
+      obtain ⟨c, hc, ha, hb⟩ := pointCase_ok h
+      refine ⟨by decide, fun _ => ⟨c, hc, ha, ?_⟩, by nope, by nope, by nope⟩
+      exact ⟨fun _ => hb, by nope, by nope, by nope, by nope, by nope⟩
+    · intro h
+      obtain ⟨c, hc, ha, hb⟩ := lineCase_ok h
+      refine ⟨by decide, fun _ => ⟨c, hc, ha, ?_⟩, by nope, by nope, by nope⟩
+      exact ⟨by nope, by nope, fun _ => hb, by nope, by nope, by nope⟩
+    · intro h
+      obtain ⟨c, hc, ha, hb⟩ := polyCase_ok h
+      refine ⟨by decide, fun _ => ⟨c, hc, ha, ?_⟩, by nope, by nope, by nope⟩
+      exact ⟨by nope, by nope, by nope, by nope, fun _ => hb, by nope⟩
+    · intro h
+      obtain ⟨c, hc, ha, hb⟩ := multiPointCase_ok h
+      refine ⟨by decide, fun _ => ⟨c, hc, ha, ?_⟩, by nope, by nope, by nope⟩
+      exact ⟨by nope, fun _ => hb, by nope, by nope, by nope, by nope⟩
+    · intro h
+      obtain ⟨c, hc, ha, hb⟩ := multiLineCase_ok h
+      refine ⟨by decide, fun _ => ⟨c, hc, ha, ?_⟩, by nope, by nope, by nope⟩
+      exact ⟨by nope, by nope, by nope, fun _ => hb, by nope, by nope⟩
+    · intro h
+      obtain ⟨c, hc, ha, hb⟩ := multiPolyCase_ok h
+      refine ⟨by decide, fun _ => ⟨c, hc, ha, ?_⟩, by nope, by nope, by nope⟩
+      exact ⟨by nope, by nope, by nope, by nope, by nope, fun _ => hb⟩
+    · intro h
+      obtain ⟨items, cs, hg, hcs, _⟩ := geomCollCase_ok h
+      refine ⟨by decide, by nope, fun _ => ⟨items, hg, ?_⟩, by nope, by nope⟩
+      intro y hy
+      obtain ⟨c, _, hc⟩ := (parseList_ok o n items cs hcs).left y hy
+      exact ⟨c, hc⟩
+    · intro h
+      obtain ⟨items, cs, hg, hcs, _⟩ := featCollCase_ok h
+      refine ⟨by decide, by nope, by nope, fun _ => ⟨items, hg, ?_⟩, by nope⟩
+      intro y hy
+      obtain ⟨c, _, hc⟩ := (parseList_ok o n items cs hcs).left y hy
+      exact ⟨c, hc⟩
+    · intro h
+      obtain ⟨g, b, hg, hb, _⟩ := featureCase_ok h
+      exact ⟨by decide, by nope, by nope, by nope, fun _ => ⟨g, b, hg, hb⟩⟩
+    · intro _ h; cases h
+  · cases h
+
+end Geo
+
+namespace Geo
+
+theorem parse_nonobj_error (o : POpts) (n : Nat) (v : JVal) (h : ∀ ms, v ≠ .obj ms) :
+    ∃ e, parse o n v = .error e := by
+  cases n with
+  | zero => exact ⟨_, parse_zero o v⟩
+  | succ n => exact ⟨_, parse_succ_nonobj o n v h⟩
+
+theorem defect_rejected_fuel (o : POpts) (v : JVal) (h : Defect v) :
+    ∀ n, ∃ e, parse o n v = .error e := by
+  induction h with
+  | notObject v h => exact fun n => parse_nonobj_error o n v h
+  | nestedGeometry ms r g h hc hd ih =>
+    intro n
+    cases n with
+    | zero => exact ⟨_, parse_zero o _⟩
+    | succ n =>
+      apply error_of_not_ok
+      intro x hx
+      obtain ⟨r', ty', hty', inv⟩ := parse_ok_inv o n ms x hx
+      rw [h] at hty'
+      cases hty'
+      obtain ⟨g', b, hg', hb⟩ := inv.2.2.2.2 rfl
+      rw [hc] at hg'
+      cases hg'
+      obtain ⟨e, he⟩ := ih n
+      rw [he] at hb
+      cases hb
+  | nestedGeometries ms r items y h hc hy hd ih =>
+    intro n
+    cases n with
+    | zero => exact ⟨_, parse_zero o _⟩
+    | succ n =>
+      apply error_of_not_ok
+      intro x hx
+      obtain ⟨r', ty', hty', inv⟩ := parse_ok_inv o n ms x hx
+      rw [h] at hty'
+      cases hty'
+      obtain ⟨items', hg', hall⟩ := inv.2.2.1 rfl
+      rw [hc] at hg'
+      cases hg'
+      obtain ⟨c, hc'⟩ := hall y hy
+      obtain ⟨e, he⟩ := ih n
+      rw [he] at hc'
+      cases hc'
+  | nestedFeatures ms r items y h hc hy hd ih =>
+    intro n
+    cases n with
+    | zero => exact ⟨_, parse_zero o _⟩
+    | succ n =>
+      apply error_of_not_ok
+      intro x hx
+      obtain ⟨r', ty', hty', inv⟩ := parse_ok_inv o n ms x hx
+      rw [h] at hty'
+      cases hty'
+      obtain ⟨items', hg', hall⟩ := inv.2.2.2.1 rfl
+      rw [hc] at hg'
+      cases hg'
+      obtain ⟨c, hc'⟩ := hall y hy
+      obtain ⟨e, he⟩ := ih n
+      rw [he] at hc'
+      cases hc'
+  | typeMissing ms h =>
+    intro n
+    cases n with
+    | zero => exact ⟨_, parse_zero o _⟩
+    | succ n =>
+      apply error_of_not_ok
+      intro x hx
+      obtain ⟨r', ty', hty', inv⟩ := parse_ok_inv o n ms x hx
+      rw [h] at hty'
+      cases hty'
+  | typeNotString ms t h hs =>
+    intro n
+    cases n with
+    | zero => exact ⟨_, parse_zero o _⟩
+    | succ n =>
+      apply error_of_not_ok
+      intro x hx
+      obtain ⟨r', ty', hty', inv⟩ := parse_ok_inv o n ms x hx
+      rw [h] at hty'
+      cases hty'
+      exact hs _ _ rfl
+  | typeUnknown ms r ty h hu =>
+    intro n
+    cases n with
+    | zero => exact ⟨_, parse_zero o _⟩
+    | succ n =>
+      apply error_of_not_ok
+      intro x hx
+      obtain ⟨r', ty', hty', inv⟩ := parse_ok_inv o n ms x hx
+      rw [h] at hty'
+      cases hty'
+      exact hu inv.1
+  | coordinatesMissing ms r ty h ht hc =>
+    intro n
+    cases n with
+    | zero => exact ⟨_, parse_zero o _⟩
+    | succ n =>
+      apply error_of_not_ok
+      intro x hx
+      obtain ⟨r', ty', hty', inv⟩ := parse_ok_inv o n ms x hx
+      rw [h] at hty'
+      cases hty'
+      obtain ⟨c, hc', _⟩ := inv.2.1 ht
+      rw [hc] at hc'
+      cases hc'
+  | geometriesMissing ms r h hc =>
+    intro n
+    cases n with
+    | zero => exact ⟨_, parse_zero o _⟩
+    | succ n =>
+      apply error_of_not_ok
+      intro x hx
+      obtain ⟨r', ty', hty', inv⟩ := parse_ok_inv o n ms x hx
+      rw [h] at hty'
+      cases hty'
+      obtain ⟨items, hc', _⟩ := inv.2.2.1 rfl
+      rw [hc] at hc'
+      cases hc'
+  | featuresMissing ms r h hc =>
+    intro n
+    cases n with
+    | zero => exact ⟨_, parse_zero o _⟩
+    | succ n =>
+      apply error_of_not_ok
+      intro x hx
+      obtain ⟨r', ty', hty', inv⟩ := parse_ok_inv o n ms x hx
+      rw [h] at hty'
+      cases hty'
+      obtain ⟨items, hc', _⟩ := inv.2.2.2.1 rfl
+      rw [hc] at hc'
+      cases hc'
+  | geometryMissing ms r h hc =>
+    intro n
+    cases n with
+    | zero => exact ⟨_, parse_zero o _⟩
+    | succ n =>
+      apply error_of_not_ok
+      intro x hx
+      obtain ⟨r', ty', hty', inv⟩ := parse_ok_inv o n ms x hx
+      rw [h] at hty'
+      cases hty'
+      obtain ⟨g, b, hc', _⟩ := inv.2.2.2.2 rfl
+      rw [hc] at hc'
+      cases hc'
+  | coordinatesNotArray ms r ty c h ht hc ha =>
+    intro n
+    cases n with
+    | zero => exact ⟨_, parse_zero o _⟩
+    | succ n =>
+      apply error_of_not_ok
+      intro x hx
+      obtain ⟨r', ty', hty', inv⟩ := parse_ok_inv o n ms x hx
+      rw [h] at hty'
+      cases hty'
+      obtain ⟨c', hc', ha', _⟩ := inv.2.1 ht
+      rw [hc] at hc'
+      cases hc'
+      rw [ha] at ha'
+      cases ha'
+  | geometriesNotArray ms r c h hc ha =>
+    intro n
+    cases n with
+    | zero => exact ⟨_, parse_zero o _⟩
+    | succ n =>
+      apply error_of_not_ok
+      intro x hx
+      obtain ⟨r', ty', hty', inv⟩ := parse_ok_inv o n ms x hx
+      rw [h] at hty'
+      cases hty'
+      obtain ⟨items, hc', _⟩ := inv.2.2.1 rfl
+      rw [hc] at hc'
+      cases hc'
+      cases ha
+  | featuresNotArray ms r c h hc ha =>
+    intro n
+    cases n with
+    | zero => exact ⟨_, parse_zero o _⟩
+    | succ n =>
+      apply error_of_not_ok
+      intro x hx
+      obtain ⟨r', ty', hty', inv⟩ := parse_ok_inv o n ms x hx
+      rw [h] at hty'
+      cases hty'
+      obtain ⟨items, hc', _⟩ := inv.2.2.2.1 rfl
+      rw [hc] at hc'
+      cases hc'
+      cases ha
+  | pointPosition ms r c h hc hb =>
+    intro n
+    cases n with
+    | zero => exact ⟨_, parse_zero o _⟩
+    | succ n =>
+      apply error_of_not_ok
+      intro x hx
+      obtain ⟨r', ty', hty', inv⟩ := parse_ok_inv o n ms x hx
+      rw [h] at hty'
+      cases hty'
+      obtain ⟨c', hc', _, h1, _⟩ := inv.2.1 (by decide)
+      rw [hc] at hc'
+      cases hc'
+      rw [h1 rfl] at hb
+      cases hb
+  | multiPointPosition ms r c p h hc hp hb =>
+    intro n
+    cases n with
+    | zero => exact ⟨_, parse_zero o _⟩
+    | succ n =>
+      apply error_of_not_ok
+      intro x hx
+      obtain ⟨r', ty', hty', inv⟩ := parse_ok_inv o n ms x hx
+      rw [h] at hty'
+      cases hty'
+      obtain ⟨c', hc', _, _, h1, _⟩ := inv.2.1 (by decide)
+      rw [hc] at hc'
+      cases hc'
+      rw [h1 rfl p hp] at hb
+      cases hb
+  | lineString ms r c h hc hb =>
+    intro n
+    cases n with
+    | zero => exact ⟨_, parse_zero o _⟩
+    | succ n =>
+      apply error_of_not_ok
+      intro x hx
+      obtain ⟨r', ty', hty', inv⟩ := parse_ok_inv o n ms x hx
+      rw [h] at hty'
+      cases hty'
+      obtain ⟨c', hc', _, _, _, h1, _⟩ := inv.2.1 (by decide)
+      rw [hc] at hc'
+      cases hc'
+      rw [h1 rfl] at hb
+      cases hb
+  | multiLineString ms r c l h hc hl hb =>
+    intro n
+    cases n with
+    | zero => exact ⟨_, parse_zero o _⟩
+    | succ n =>
+      apply error_of_not_ok
+      intro x hx
+      obtain ⟨r', ty', hty', inv⟩ := parse_ok_inv o n ms x hx
+      rw [h] at hty'
+      cases hty'
+      obtain ⟨c', hc', _, _, _, _, h1, _⟩ := inv.2.1 (by decide)
+      rw [hc] at hc'
+      cases hc'
+      rw [h1 rfl l hl] at hb
+      cases hb
+  | polygon ms r c h hc hb =>
+    intro n
+    cases n with
+    | zero => exact ⟨_, parse_zero o _⟩
+    | succ n =>
+      apply error_of_not_ok
+      intro x hx
+      obtain ⟨r', ty', hty', inv⟩ := parse_ok_inv o n ms x hx
+      rw [h] at hty'
+      cases hty'
+      obtain ⟨c', hc', _, _, _, _, _, h1, _⟩ := inv.2.1 (by decide)
+      rw [hc] at hc'
+      cases hc'
+      rw [h1 rfl] at hb
+      cases hb
+  | multiPolygon ms r c pg h hc hl hb =>
+    intro n
+    cases n with
+    | zero => exact ⟨_, parse_zero o _⟩
+    | succ n =>
+      apply error_of_not_ok
+      intro x hx
+      obtain ⟨r', ty', hty', inv⟩ := parse_ok_inv o n ms x hx
+      rw [h] at hty'
+      cases hty'
+      obtain ⟨c', hc', _, _, _, _, _, _, h1⟩ := inv.2.1 (by decide)
+      rw [hc] at hc'
+      cases hc'
+      rw [h1 rfl pg hl] at hb
+      cases hb
+
+/-- every text with a listed structural defect is rejected, whatever the options -/
+theorem defect_rejected (o : POpts) (v : JVal) (h : Defect v) : ∃ e, parseTop o v = .error e :=
+  defect_rejected_fuel o v h _
+
+end Geo
+
+namespace Geo
+
+/-! ## well-formed documents -/
+
+/-- One JSON object of one of the nine GeoJSON types with a well-formed required member.
+    For duplicate members the last one counts (`scanKeys`). Positions are arrays of exactly
+    two to four finite numbers (`wfPos`), line strings have at least two positions (`wfLine`),
+    polygon rings at least four with first equal to last in x and y (`wfRing`), polygons at
+    least one ring (`wfPoly`); a Feature has a well-formed geometry of any of the nine types
+    and any properties; collections are arrays of well-formed objects.
+
+    Side condition (Tile38 Circle convention): a Feature whose `properties.type` is the string
+    "Circle" is read as a Circle when its geometry is a Point, which may fail on the radius
+    units; such Features are excluded here (`isCircleType = false`). -/
+inductive WellFormed : JVal → Prop
+  | point (ms) (r : String) (c : JVal) (h : (scanKeys ms).type = some (.str r "Point"))
+      (hc : (scanKeys ms).coordinates = some c) (hw : wfPos c = true) : WellFormed (.obj ms)
+  | lineString (ms) (r : String) (c : JVal) (h : (scanKeys ms).type = some (.str r "LineString"))
+      (hc : (scanKeys ms).coordinates = some c) (hw : wfLine c = true) : WellFormed (.obj ms)
+  | polygon (ms) (r : String) (c : JVal) (h : (scanKeys ms).type = some (.str r "Polygon"))
+      (hc : (scanKeys ms).coordinates = some c) (hw : wfPoly c = true) : WellFormed (.obj ms)
+  | multiPoint (ms) (r : String) (c : JVal) (h : (scanKeys ms).type = some (.str r "MultiPoint"))
+      (hc : (scanKeys ms).coordinates = some c) (hw : wfArrayOf wfPos c = true) : WellFormed (.obj ms)
+  | multiLineString (ms) (r : String) (c : JVal)
+      (h : (scanKeys ms).type = some (.str r "MultiLineString"))
+      (hc : (scanKeys ms).coordinates = some c) (hw : wfArrayOf wfLine c = true) : WellFormed (.obj ms)
+  | multiPolygon (ms) (r : String) (c : JVal)
+      (h : (scanKeys ms).type = some (.str r "MultiPolygon"))
+      (hc : (scanKeys ms).coordinates = some c) (hw : wfArrayOf wfPoly c = true) : WellFormed (.obj ms)
+  | geometryCollection (ms) (r : String) (items : List JVal)
+      (h : (scanKeys ms).type = some (.str r "GeometryCollection"))
+      (hc : (scanKeys ms).geometries = some (.arr items))
+      (hw : ∀ x ∈ items, WellFormed x) : WellFormed (.obj ms)
+  | featureCollection (ms) (r : String) (items : List JVal)
+      (h : (scanKeys ms).type = some (.str r "FeatureCollection"))
+      (hc : (scanKeys ms).features = some (.arr items))
+      (hw : ∀ x ∈ items, WellFormed x) : WellFormed (.obj ms)
+  | feature (ms) (r : String) (g : JVal)
+      (h : (scanKeys ms).type = some (.str r "Feature"))
+      (hc : (scanKeys ms).geometry = some g) (hw : WellFormed g)
+      (hcircle : isCircleType (scanKeys ms) = false) : WellFormed (.obj ms)
+
+/-- the dimension rule for one line string / one polygon (all its rings together): if the
+    first position has exactly two ordinates, no later position has more than two -/
+def lineDimsOK (c : JVal) : Bool := dimsOKb c.elems
+def polyDimsOK (c : JVal) : Bool := dimsOKb (c.elems.flatMap JVal.elems)
+
+/-- No LineString / Polygon / MultiLineString / MultiPolygon part has a first position with
+    exactly two ordinates and a later position with more than two (known finding D11: such
+    documents are rejected by the real code). Stated as an inductive predicate (the recursion
+    goes through `scanKeys`, which is not structural). -/
+inductive DimsNotIncreasing : JVal → Prop
+  | nonObj (v : JVal) (h : ∀ ms, v ≠ .obj ms) : DimsNotIncreasing v
+  | obj (ms : List (String × String × JVal))
+      (hLine : ∀ r c, (scanKeys ms).type = some (.str r "LineString") →
+        (scanKeys ms).coordinates = some c → lineDimsOK c = true)
+      (hPoly : ∀ r c, (scanKeys ms).type = some (.str r "Polygon") →
+        (scanKeys ms).coordinates = some c → polyDimsOK c = true)
+      (hMLine : ∀ r c, (scanKeys ms).type = some (.str r "MultiLineString") →
+        (scanKeys ms).coordinates = some c → ∀ l ∈ c.elems, lineDimsOK l = true)
+      (hMPoly : ∀ r c, (scanKeys ms).type = some (.str r "MultiPolygon") →
+        (scanKeys ms).coordinates = some c → ∀ pg ∈ c.elems, polyDimsOK pg = true)
+      (hFeat : ∀ r g, (scanKeys ms).type = some (.str r "Feature") →
+        (scanKeys ms).geometry = some g → DimsNotIncreasing g)
+      (hGC : ∀ r items, (scanKeys ms).type = some (.str r "GeometryCollection") →
+        (scanKeys ms).geometries = some (.arr items) → ∀ x ∈ items, DimsNotIncreasing x)
+      (hFC : ∀ r items, (scanKeys ms).type = some (.str r "FeatureCollection") →
+        (scanKeys ms).features = some (.arr items) → ∀ x ∈ items, DimsNotIncreasing x) :
+      DimsNotIncreasing (.obj ms)
+
+theorem DimsNotIncreasing.inv {ms : List (String × String × JVal)} (h : DimsNotIncreasing (.obj ms)) :
+    (∀ r c, (scanKeys ms).type = some (.str r "LineString") →
+        (scanKeys ms).coordinates = some c → lineDimsOK c = true) ∧
+    (∀ r c, (scanKeys ms).type = some (.str r "Polygon") →
+        (scanKeys ms).coordinates = some c → polyDimsOK c = true) ∧
+    (∀ r c, (scanKeys ms).type = some (.str r "MultiLineString") →
+        (scanKeys ms).coordinates = some c → ∀ l ∈ c.elems, lineDimsOK l = true) ∧
+    (∀ r c, (scanKeys ms).type = some (.str r "MultiPolygon") →
+        (scanKeys ms).coordinates = some c → ∀ pg ∈ c.elems, polyDimsOK pg = true) ∧
+    (∀ r g, (scanKeys ms).type = some (.str r "Feature") →
+        (scanKeys ms).geometry = some g → DimsNotIncreasing g) ∧
+    (∀ r items, (scanKeys ms).type = some (.str r "GeometryCollection") →
+        (scanKeys ms).geometries = some (.arr items) → ∀ x ∈ items, DimsNotIncreasing x) ∧
+    (∀ r items, (scanKeys ms).type = some (.str r "FeatureCollection") →
+        (scanKeys ms).features = some (.arr items) → ∀ x ∈ items, DimsNotIncreasing x) := by
+  cases h with
+  | nonObj _ h => exact absurd rfl (h ms)
+  | obj _ h1 h2 h3 h4 h5 h6 h7 => exact ⟨h1, h2, h3, h4, h5, h6, h7⟩
+
+/-- `parse` on an object whose (last) type member is the string `ty` -/
+theorem parse_of_type {o : POpts} {n : Nat} {ms : List (String × String × JVal)} {r ty : String}
+    (h : (scanKeys ms).type = some (.str r ty)) :
+    parse o (n+1) (.obj ms) = parseTyped o (scanKeys ms) (parse o n) (parseList o n) ty := by
+  rw [parse_succ_obj, h]
+
+theorem wf_accepted_fuel (o : POpts) (ho : o.requireValid = false) (v : JVal) (h : WellFormed v) :
+    ∀ n, v.depth < n → DimsNotIncreasing v → ∃ x, parse o n v = .ok x := by
+  induction h with
+  | point ms r c h hc hw =>
+    intro n hn _
+    cases n with
+    | zero => exact absurd hn (Nat.not_lt_zero _)
+    | succ n => rw [parse_of_type h]; exact pointCase_wf ho hc hw
+  | lineString ms r c h hc hw =>
+    intro n hn hd
+    cases n with
+    | zero => exact absurd hn (Nat.not_lt_zero _)
+    | succ n => rw [parse_of_type h]; exact lineCase_wf ho hc hw (hd.inv.1 r c h hc)
+  | polygon ms r c h hc hw =>
+    intro n hn hd
+    cases n with
+    | zero => exact absurd hn (Nat.not_lt_zero _)
+    | succ n => rw [parse_of_type h]; exact polyCase_wf ho hc hw (hd.inv.2.1 r c h hc)
+  | multiPoint ms r c h hc hw =>
+    intro n hn _
+    cases n with
+    | zero => exact absurd hn (Nat.not_lt_zero _)
+    | succ n => rw [parse_of_type h]; exact multiPointCase_wf ho hc hw
+  | multiLineString ms r c h hc hw =>
+    intro n hn hd
+    cases n with
+    | zero => exact absurd hn (Nat.not_lt_zero _)
+    | succ n => rw [parse_of_type h]; exact multiLineCase_wf ho hc hw (hd.inv.2.2.1 r c h hc)
+  | multiPolygon ms r c h hc hw =>
+    intro n hn hd
+    cases n with
+    | zero => exact absurd hn (Nat.not_lt_zero _)
+    | succ n => rw [parse_of_type h]; exact multiPolyCase_wf ho hc hw (hd.inv.2.2.2.1 r c h hc)
+  | geometryCollection ms r items h hc hw ih =>
+    intro n hn hd
+    cases n with
+    | zero => exact absurd hn (Nat.not_lt_zero _)
+    | succ n =>
+      rw [parse_of_type h]
+      have hdep := (scanKeys_depth ms).geometries _ hc
+      rw [depth_obj] at hn
+      rw [depth_arr] at hdep
+      obtain ⟨cs, hcs⟩ := parseList_total o n items (fun x hx =>
+        ih x hx n (by have := depth_le_depthL items x hx; omega) (hd.inv.2.2.2.2.2.1 r items h hc x hx))
+      show ∃ x, geomCollCase o (scanKeys ms) (parseList o n) = .ok x
+      unfold geomCollCase
+      rw [hc, reqArray_arr]
+      simp only [hcs]
+      exact ⟨_, rfl⟩
+  | featureCollection ms r items h hc hw ih =>
+    intro n hn hd
+    cases n with
+    | zero => exact absurd hn (Nat.not_lt_zero _)
+    | succ n =>
+      rw [parse_of_type h]
+      have hdep := (scanKeys_depth ms).features _ hc
+      rw [depth_obj] at hn
+      rw [depth_arr] at hdep
+      obtain ⟨cs, hcs⟩ := parseList_total o n items (fun x hx =>
+        ih x hx n (by have := depth_le_depthL items x hx; omega) (hd.inv.2.2.2.2.2.2 r items h hc x hx))
+      show ∃ x, featCollCase o (scanKeys ms) (parseList o n) = .ok x
+      unfold featCollCase
+      rw [hc, reqArray_arr]
+      simp only [hcs]
+      exact ⟨_, rfl⟩
+  | feature ms r g h hc hw hcircle ih =>
+    intro n hn hd
+    cases n with
+    | zero => exact absurd hn (Nat.not_lt_zero _)
+    | succ n =>
+      rw [parse_of_type h]
+      have hdep := (scanKeys_depth ms).geometry _ hc
+      rw [depth_obj] at hn
+      obtain ⟨b, hb⟩ := ih n (by omega) (hd.inv.2.2.2.2.1 r g h hc)
+      show ∃ x, featureCase o (scanKeys ms) (parse o n) = .ok x
+      unfold featureCase
+      rw [hc]
+      simp only [hb, featureObj_noCircle hcircle]
+      exact ⟨_, rfl⟩
+
+/-- Every well-formed document that respects the dimension rule is accepted (RequireValid
+    off). The restriction `DimsNotIncreasing` is necessary: `wf_accepted_counterexample`. -/
+theorem wf_accepted_partial (o : POpts) (ho : o.requireValid = false) (v : JVal)
+    (h : WellFormed v) (hd : DimsNotIncreasing v) : ∃ x, parseTop o v = .ok x :=
+  wf_accepted_fuel o ho v h _ (Nat.lt_succ_self _) hd
+
+end Geo
+
+namespace Geo
+
+/-! ## concrete documents -/
+
+/-- a finite JSON number whose source text is its canonical text -/
+def jnum (v : Rat) (s : String) : JVal := .num true v s s s
+def jstr (s : String) : JVal := .str ("\"" ++ s ++ "\"") s
+def jmem (k : String) (v : JVal) : String × String × JVal := ("\"" ++ k ++ "\"", k, v)
+
+/-- `{"type":"LineString","coordinates":[[0,0],[10,0,1]]}` -/
+def docD11 : JVal :=
+  .obj [jmem "type" (jstr "LineString"),
+        jmem "coordinates" (.arr [.arr [jnum 0 "0", jnum 0 "0"], .arr [jnum 10 "10", jnum 0 "0", jnum 1 "1"]])]
+
+theorem docD11_rejected : parseTop {} docD11 = .error .coordsInvalid := by
+  show parse {} (3+1) (.obj _) = _
+  rw [parse_succ_obj]
+  rfl
+
+theorem docD11_wellFormed : WellFormed docD11 :=
+  .lineString _ _ _ rfl rfl rfl
+
+end Geo
+
+namespace Geo
+
+/-- the D11 witness: a well-formed document (positions of two and of three numbers) that the
+    real code — and the model — rejects -/
+theorem wf_accepted_counterexample : ∃ v, WellFormed v ∧ ∃ e, parseTop {} v = .error e :=
+  ⟨docD11, docD11_wellFormed, _, docD11_rejected⟩
+
+theorem str_ty_eq {r r' a b : String} (h : some (JVal.str r a) = some (JVal.str r' b)) : a = b := by
+  injection h with h
+  injection h
+
+/-- `{"type":"Polygon","coordinates":[[[0,0],[10,0],[10,10],[0,0]]],"id":7}` -/
+def docPoly : JVal :=
+  .obj [jmem "type" (jstr "Polygon"),
+        jmem "coordinates" (.arr [.arr [.arr [jnum 0 "0", jnum 0 "0"], .arr [jnum 10 "10", jnum 0 "0"],
+          .arr [jnum 10 "10", jnum 10 "10"], .arr [jnum 0 "0", jnum 0 "0"]]]),
+        jmem "id" (jnum 7 "7")]
+
+theorem docPoly_wellFormed : WellFormed docPoly := .polygon _ _ _ rfl rfl (by decide)
+
+theorem docPoly_dims : DimsNotIncreasing docPoly := by
+  refine .obj _ ?_ ?_ ?_ ?_ ?_ ?_ ?_
+  · intro r c h; exact absurd (str_ty_eq h) (by decide)
+  · intro r c _ hc; cases hc; decide
+  · intro r c h; exact absurd (str_ty_eq h) (by decide)
+  · intro r c h; exact absurd (str_ty_eq h) (by decide)
+  · intro r c h; exact absurd (str_ty_eq h) (by decide)
+  · intro r c h; exact absurd (str_ty_eq h) (by decide)
+  · intro r c h; exact absurd (str_ty_eq h) (by decide)
+
+/-- non-vacuity of `wf_accepted_partial` -/
+example : ∃ x, parseTop {} docPoly = .ok x :=
+  wf_accepted_partial {} rfl docPoly docPoly_wellFormed docPoly_dims
+
+/-- `{"type":"Point","coordinates":[1,2]}` is accepted, and this is what it decodes to -/
+def docPoint : JVal :=
+  .obj [jmem "type" (jstr "Point"), jmem "coordinates" (.arr [jnum 1 "1", jnum 2 "2"])]
+
+example : parseTop {} docPoint = .ok (.point ⟨⟨1, 2⟩, true, "1", "2"⟩ none) := by
+  show parse {} (2+1) (.obj _) = _
+  rw [parse_succ_obj]
+  rfl
+
+/-- `{"type":"Polygon","coordinates":[[[0,0],[1,1],[0,0]]]}`: a ring with three positions -/
+def docShortRing : JVal :=
+  .obj [jmem "type" (jstr "Polygon"),
+        jmem "coordinates" (.arr [.arr [.arr [jnum 0 "0", jnum 0 "0"], .arr [jnum 1 "1", jnum 1 "1"],
+          .arr [jnum 0 "0", jnum 0 "0"]]])]
+
+theorem docShortRing_defect : Defect docShortRing := .polygon _ _ _ rfl rfl (by decide)
+
+/-- non-vacuity of `defect_rejected` -/
+example : ∃ e, parseTop {} docShortRing = .error e := defect_rejected {} _ docShortRing_defect
+
+example : parseTop {} docShortRing = .error .coordsInvalid := by
+  show parse {} (4+1) (.obj _) = _
+  rw [parse_succ_obj]
+  rfl
+
+/-- a defect in a nested object: `{"type":"Feature","geometry":{"type":"Point","coordinates":[1]}}` -/
+def docNested : JVal :=
+  .obj [jmem "type" (jstr "Feature"),
+        jmem "geometry" (.obj [jmem "type" (jstr "Point"), jmem "coordinates" (.arr [jnum 1 "1"])])]
+
+example : Defect docNested :=
+  .nestedGeometry _ _ _ rfl rfl (.pointPosition _ _ _ rfl rfl (by decide))
+
+/-- finding D12: a JSON object in place of a position is ACCEPTED (gjson iterates its member
+    values); it is neither well-formed nor a listed defect.
+    `{"type":"MultiPoint","coordinates":[{"a":1,"b":2}]}` -/
+def docObjPos : JVal :=
+  .obj [jmem "type" (jstr "MultiPoint"),
+        jmem "coordinates" (.arr [.obj [jmem "a" (jnum 1 "1"), jmem "b" (jnum 2 "2")]])]
+
+example : parseTop {} docObjPos =
+    .ok (.coll .multiPoint [.point ⟨⟨1, 2⟩, true, "1", "2"⟩ none] none false) := by
+  show parse {} (3+1) (.obj _) = _
+  rw [parse_succ_obj]
+  rfl
+
+/-- `takeNums` stops after four values: a fifth, non-numeric element is not looked at -/
+example : parseTop {} (.obj [jmem "type" (jstr "Point"),
+    jmem "coordinates" (.arr [jnum 1 "1", jnum 2 "2", jnum 3 "3", jnum 4 "4", jstr "x"])]) =
+    .ok (.point ⟨⟨1, 2⟩, true, "1", "2"⟩ (some ⟨2, ["3", "4"], "", false⟩)) := by
+  show parse {} (2+1) (.obj _) = _
+  rw [parse_succ_obj]
+  rfl
+
+end Geo
+
+#print axioms Geo.defect_rejected
+#print axioms Geo.wf_accepted_partial
+#print axioms Geo.wf_accepted_counterexample
